@@ -100,7 +100,7 @@ def build(rnd, tier, flags):
     std = "f2008" if (meta["f08"] or g.o.f08) else r.pick(["f2003", "f2008"])
     lo = layout.FreeOpts(trail_blanks=r.pick([0, 0, 25]), big_indent=r.pick([0, 0, 10]), cont=r.pick([5, 12, 25]), lead_amp=r.pick([0, 50, 100]), lit_break=r.pick([0, 40]),
                          comments=r.pick([0, 15]), trailing=r.pick([0, 10]), blank_lines=r.pick([0, 10]),
-                         cont_comments=r.pick([0, 30]), semis=r.pick([0, 20]), indent=r.chance(70),
+                         cont_comments=r.pick([0, 30]), semis=r.pick([0, 20, 80]), indent=r.chance(70),
                          kwcase=r.chance(50), namecase=r.chance(40), blanks=r.chance(30),
                          names=gen.ALL_NAMES, excl=set(flags))
     lay = layout.free_layout(flat, rnd, lo)
@@ -131,10 +131,13 @@ def evaluate(case):
         return Result(False, "reject:%s:%s" % (o2.kind, kinds or meta.get("enum", "?")), nontrivial, labels,
                       {"error": o2.text, "culprit": chunk})
     d = tree_diff(o1.tree, o2.tree, names_lower=True)
+    if d and d[0].startswith("case-only:"):
+        d = None      # keywords / operators re-cased by the layout itself; the spelling of names is compared below
     if d:
         def differs(t):
             o = guarded_parse(t, std=std)
-            return o.kind == "tree" and tree_diff(o1.tree, o.tree, names_lower=True) is not None
+            dd = tree_diff(o1.tree, o.tree, names_lower=True) if o.kind == "tree" else None
+            return dd is not None and not dd[0].startswith("case-only:")
         kinds, chunk = progs.isolate_group(case, differs)
         return Result(False, "tree:%s:%s" % (d[0], kinds or meta.get("enum", "?")), nontrivial, labels,
                       {"culprit": chunk, "printed_laid": str(o2.tree)[:2000]}, classes=class_names(o2.tree))
